@@ -29,6 +29,8 @@ func init() {
 			{Name: "credit-for-ineligible", File: "bfe_balance/bal_slb/bal_rr.go", Old: "	for _, backendRR := range backs {\n		backend := backendRR.backend\n		// skip ineligible backend\n		if !backend.Avail() || backendRR.weight <= 0 {\n			continue\n		}\n", New: "	for _, backendRR := range backs {\n		backend := backendRR.backend\n		backendRR.current += backendRR.weight\n		// skip ineligible backend\n		if !backend.Avail() || backendRR.weight <= 0 {\n			continue\n		}\n", Expect: "credit-update"},
 			{Name: "tie-break-ge", File: "bfe_balance/bal_slb/bal_rr.go", Old: "		if best == nil || backendRR.current > max {", New: "		if best == nil || backendRR.current >= max {", Expect: "choice-strict"},
 			{Name: "random-tiebreak", File: "bfe_balance/bal_slb/bal_rr.go", Old: "		if best == nil || backendRR.current > max {", New: "		if best == nil || backendRR.current > max || (backendRR.current == max && rand.Int()%2 == 0) {", Expect: "determinism"},
+			{Name: "weight-update-skipped", File: "bfe_balance/bal_slb/backend_rr.go", Old: "func (backRR *BackendRR) UpdateWeight(weight int) {\n", New: "func (backRR *BackendRR) UpdateWeight(weight int) {\n	if backRR.weightSS.final == weight*100 {\n		return\n	}\n", Expect: "weight-installed"},
+			{Name: "repick-same-subcluster", File: "bfe_balance/bal_gslb/bal_gslb.go", Old: "		backend, err = current.balance(balAlgor, hashKey)\n		if err == nil {\n			return backend, nil\n		} else {", New: "		backend, err = current.balance(balAlgor, hashKey)\n		if err == nil && req.RetryTime > 0 && backend == req.Trans.Backend {\n			backend, err = current.balance(balAlgor, hashKey)\n		}\n		if err == nil {\n			return backend, nil\n		} else {", Expect: "single-pick"},
 			{Name: "survivor-reinit", File: "bfe_balance/bal_slb/bal_rr.go", Old: "			backendRR.UpdateWeight(*bkConf.Weight)\n", New: "			backendRR.Init(brr.Name, bkConf)\n", Expect: "survivor-calls"},
 			{Name: "debit-weight-sum", File: "bfe_balance/bal_slb/bal_rr.go", Old: "		total += backendRR.current\n", New: "		total += backendRR.weight\n		if backendRR.current < 0 {\n			total -= backendRR.weight\n		}\n", Expect: "debit"},
 		},
@@ -154,6 +156,50 @@ func runC01(c *core.Ctx) {
 		}
 	}
 
+	// a reloaded weight is always installed: UpdateWeight stores weight*100 on every path
+	if uw := c.P.Func(slb, "BackendRR.UpdateWeight"); uw == nil {
+		c.Missing(slb + ".BackendRR.UpdateWeight")
+	} else {
+		c.Analysed(core.FuncKey(uw))
+		bad := core.MustPass(uw, nil, func(x ssa.Instruction) bool {
+			st, ok := x.(*ssa.Store)
+			if !ok || core.Render(st.Addr) != "backRR.weight" {
+				return false
+			}
+			b, ok := st.Val.(*ssa.BinOp)
+			return ok && b.Op == token.MUL && core.Render(b.X) == "weight" && core.Render(b.Y) == "100"
+		})
+		c.Check("weight-installed", "BackendRR.UpdateWeight", uw.Pos(), bad == nil, "a path through UpdateWeight returns without storing the new weight (weight*100): a reload that changes a weight back to an earlier value would keep the stale weight and the shares would follow it")
+	}
+	// a pick that consumed credit is handed out: BalanceGslb.Balance never balances the same
+	// sub-cluster twice in one call (a discarded smooth-WRR pick silently removes a selection)
+	if gb := c.P.Func("bfe_balance/bal_gslb", "BalanceGslb.Balance"); gb == nil {
+		c.Missing("bfe_balance/bal_gslb.BalanceGslb.Balance")
+	} else {
+		c.Analysed(core.FuncKey(gb))
+		calls := core.Calls(gb, "bfe_balance/bal_gslb.SubCluster.balance")
+		n := 0
+		for i, a := range calls {
+			for j, b := range calls {
+				if i == j {
+					continue
+				}
+				if core.ReachAvoiding(gb, a.(ssa.Instruction), nil, func(x ssa.Instruction) bool { return x == b.(ssa.Instruction) }) == nil {
+					continue
+				}
+				n++
+				same := core.StripConv(a.Common().Args[0]) == core.StripConv(b.Common().Args[0]) || core.Render(a.Common().Args[0]) == core.Render(b.Common().Args[0])
+				c.Check("single-pick", fmt.Sprintf("BalanceGslb.Balance:balance#%d->#%d", i, j), b.Pos(), !same, "one Balance call can balance the same sub-cluster twice: the first pick already moved the smooth-WRR credits and is thrown away, so the observed sequence drops selections")
+			}
+		}
+		for i, a := range calls {
+			loop := core.ReachAvoiding(gb, a.(ssa.Instruction), nil, func(x ssa.Instruction) bool { return x == a.(ssa.Instruction) }) != nil
+			c.Check("single-pick", fmt.Sprintf("BalanceGslb.Balance:balance#%d:once", i), a.Pos(), !loop, "SubCluster.balance is called in a loop inside one Balance call")
+		}
+		if len(calls) < 2 {
+			c.Check("single-pick", "BalanceGslb.Balance:sites", gb.Pos(), false, fmt.Sprintf("expected the in-cluster and the cross-cluster balance call, found %d", len(calls)))
+		}
+	}
 	// ---- (c) smoothBalance's updates ---------------------------------------------------------------
 	c.Analysed(core.FuncKey(sb))
 	loops := core.Loops(sb)
